@@ -1,3 +1,107 @@
 package main
 
-func proveLemmas(e *engine, id string, errs *[]string) []*unit { return nil }
+// Lemmas: proved once (by induction on a parameter, or directly) as ground
+// obligations; `use L(args)` then assumes an instance.
+
+import (
+	"fmt"
+	"go/types"
+	"math/big"
+	"sort"
+	"strings"
+)
+
+func proveLemmas(e *engine, id string, errs *[]string) []*unit {
+	var out []*unit
+	var paths []string
+	for p := range e.contracts {
+		paths = append(paths, p)
+	}
+	sort.Strings(paths)
+	for _, pp := range paths {
+		pc := e.contracts[pp]
+		for _, name := range pc.sorder {
+			sf := pc.specs[name]
+			if sf.kind != "lemma" || !hasProp(sf.props, id) {
+				continue
+			}
+			u := &unit{eng: e, lemma: sf, m: mode{intMode: pc.mode == "int"}, decls: map[string]string{}, notes: map[string]bool{}, closures: map[string]*closureVal{}, siteOrd: map[string]int{}, inlined: map[string]bool{}, ghostTypes: map[string]types.Type{}}
+			func() {
+				defer func() {
+					if r := recover(); r != nil {
+						if ee, ok := r.(engineErr); ok {
+							*errs = append(*errs, u.name()+": "+string(ee))
+						} else {
+							*errs = append(*errs, fmt.Sprintf("%s: internal error: %v [%s]", u.name(), r, shortStack()))
+						}
+					}
+				}()
+				u.runLemma()
+			}()
+			out = append(out, u)
+		}
+	}
+	return out
+}
+
+func (u *unit) runLemma() {
+	sf := u.lemma
+	pkg := u.eng.typesPkg(sf.pkgPath)
+	mk := func() (*state, *env) {
+		s := &state{u: u, vals: nil, heaps: map[string]string{}, hsort: map[string]string{}, names: map[string]nameBinding{}, ghost: map[string]Val{}}
+		e := &env{u: u, st: s, pkg: pkg, vars: map[string]Val{}, what: "lemma " + sf.name}
+		return s, e
+	}
+	bindParams := func(s *state, e *env) {
+		for i, pn := range sf.pnames {
+			t := e.resolveType(sf.ptypes[i])
+			if t == nil {
+				e.fail("unknown parameter type %s", exprStr(sf.ptypes[i]))
+			}
+			e.vars[pn] = s.symVal(pn, t)
+		}
+	}
+	addHints := func(s *state, e *env) {
+		for _, h := range sf.using {
+			s.pc = append(s.pc, e.useInstance(h))
+		}
+	}
+	pos := fmt.Sprintf("%s:%d", strings.TrimPrefix(u.eng.contracts[sf.pkgPath].file, u.eng.repo+"/"), sf.line)
+	emit := func(s *state, kind, goal string) {
+		o := &oblig{name: u.name() + "#" + kind, kind: "lemma-" + kind, clause: sf.src, pos: pos, pc: append([]string(nil), s.pc...), goal: goal}
+		u.obligs = append(u.obligs, o)
+	}
+	proof := strings.Fields(sf.proof)
+	if len(proof) == 2 && proof[0] == "induction" {
+		iv := proof[1]
+		// base
+		s, e := mk()
+		bindParams(s, e)
+		t := e.vars[iv].T
+		e.vars[iv] = u.mat(Val{K: big.NewInt(0)}, t)
+		addHints(s, e)
+		emit(s, "base", e.evalBool(sf.body))
+		// step: body(k) and k+1 does not wrap |- body(k+1)
+		s, e = mk()
+		bindParams(s, e)
+		k := e.vars[iv]
+		addHints(s, e)
+		s.pc = append(s.pc, e.evalBool(sf.body))
+		k1 := u.arith(tokADD, k, Val{K: big.NewInt(1)}, nil)
+		s.pc = append(s.pc, not(eq(k1.S[0], u.mat(Val{K: big.NewInt(0)}, t).S[0])))
+		e2 := *e
+		e2.vars = map[string]Val{}
+		for n, v := range e.vars {
+			e2.vars[n] = v
+		}
+		k1.T = t
+		e2.vars[iv] = k1
+		emit(s, "step", e2.evalBool(sf.body))
+		return
+	}
+	// direct proof
+	s, e := mk()
+	bindParams(s, e)
+	addHints(s, e)
+	emit(s, "direct", e.evalBool(sf.body))
+}
